@@ -68,8 +68,11 @@ class SingleRun:
             if again.get("status") == summ["status"]:
                 status_violation(summ)
             else:
-                summ = {"status": "HARNESS", "error": f"{summ['status']} did not reproduce",
-                        "violations": [], "fired": [], "digest": ""}
+                # the wall-clock watchdog is the one verdict that rests on real time: a run it
+                # killed on a loaded machine and that completes when run again is that completed
+                # run (runs are deterministic), not a finding and not a harness failure
+                again["watchdog_retry"] = summ["status"]
+                summ = again
         out = outcome_from_summary(i, summ, self.mod.ID)
         out["hashseed"] = h
         out["gen"] = gen
